@@ -58,8 +58,8 @@ PROPERTIES = {
                        "same glue end to end incl. overrides of sub-proposition ids, and repeated queries on one object END TO END (contracts.shapes): the real recursive code on concrete tree shapes (flat, nested, shared leaf[, depth 3]) x all sign assignments with symbolic thresholds, leaf bounds and interpretations, no callee contracts: evaluate(e) and the top entry of evaluate_propositions(e) equal the truth value; shape.fixed-node: the same with one compound node (the model's own id or an inner one) fixed to a symbolic constant as int / (k,k) / Bounds(k,k).",
     },
     "C04": {
-        "harness_modules": ["contracts.c04", "contracts.c05", "contracts.c16"],
-        "harness_filter": lambda h: type(h).__module__ in ("contracts.c04", "contracts.c05") or h.name in (
+        "harness_modules": ["contracts.c04", "contracts.c05", "contracts.c16", "contracts.c04rules"],
+        "harness_filter": lambda h: type(h).__module__ in ("contracts.c04", "contracts.c05", "contracts.c04rules") or h.name in (
             "json:AtLeast", "json:AtMost", "json:All", "json:Any", "json:Xor", "json:XNor", "json:Imply"),
         "rt": ["rt.logic:c04_json_and_rules"],
         "level": "other",
@@ -69,8 +69,11 @@ PROPERTIES = {
                        "the modular argument (negate's contract from C05 for Imply/Not/XNor). JSON route: the round-trip obligations of "
                        "C16 (json:<class>: from_json(to_json(K(children, k))) has K's truth function, every child count, symbolic "
                        "threshold) composed with the constructor obligations above -- a record some constructor can emit is read "
-                       "back with the documented meaning. bounded stand-in: hand-written JSON records (not emitted by to_json) and the "
-                       "rule-dictionary (from_cicJE) route incl. groups of one component and explicit group ids.",
+                       "back with the documented meaning. Rule dictionaries (contracts.c04rules): the real Imply.from_cicJE on 240 concrete rule dictionaries (5 rule types x groups of 1-3 components x "
+                       "no condition / 1-2 sub-conditions under ALL/ANY x with/without group ids), truth function == documented meaning for every "
+                       "0/1 assignment (symbolic); from_json(records): plog.from_json on hand-written records of all 8 types over leaves and nested records, "
+                       "symbolic thresholds (at-least-k for k >= 1, at-most-k for every integer k), with/without id. bounded stand-in: random hand-written JSON records and the "
+                       "same rule dictionaries natively.",
     },
     "C05": {
         "harness_modules": ["contracts.c05", "contracts.shapes"],
